@@ -110,7 +110,7 @@ package responsemanager
 //@ func ResponseManager.processRequests
 //@   lenient
 //@   requires invRS(rm)
-//@   modifies rm.inProgressResponses[*], inProgressResponseStatus.state, inProgressResponseStatus.updates, prot, alloc, nPush, nRemove, nScope
+//@   modifies rm.inProgressResponses[*], inProgressResponseStatus.state, inProgressResponseStatus.updates, prot, alloc, nPush, nRemove, nScope, errSigTok, errSigVal
 //@   ensures invRS(rm)
 //@   callsite ResponseManager.abortRequest: assert mine(rm, p, $requestID)
 //@   callsite ResponseManager.processUpdate: assert mine(rm, p, $requestID)
@@ -140,6 +140,12 @@ package responsemanager
 //@   requires invRS(rm)
 //@   modifies rm.inProgressResponses[*], inProgressResponseStatus.state, prot, alloc, nTaskDone, errSigTok
 //@   ensures invRS(rm)
+//@   -- C23/C21: a finished task is ALWAYS reported done to the queue (whatever became of its response), exactly once
+//@   ensures nTaskDone == old(nTaskDone) + 1
+//@   callsite TaskQueue.TaskDone: assert $p == p && $task == task
+//@   -- C23: ... and its response, if still tracked, is left neither Running nor Queued (it is in neither list of the queue now)
+//@   ensures task.Topic in rm.inProgressResponses ==>
+//@           (rm.inProgressResponses[task.Topic].state == graphsync.Paused || rm.inProgressResponses[task.Topic].state == graphsync.CompletingSend)
 //@   -- C05: the executor polls its error signal only between blocks. A network failure signalled after its last poll finds
 //@   -- the response stream already closed (no terminal status can be queued for it any more), so the end of the task is the
 //@   -- last step that can retire the response: it must, whatever the task itself reported (short of a pause)
@@ -147,12 +153,6 @@ package responsemanager
 //@           && old(errSigTok[rm.inProgressResponses[task.Topic].signals.ErrSignal]) > 0
 //@           && old(errSigVal[rm.inProgressResponses[task.Topic].signals.ErrSignal]) == queryexecutor.ErrNetworkError
 //@           ==> !(task.Topic in rm.inProgressResponses)
-//@   -- C23/C21: a finished task is ALWAYS reported done to the queue (whatever became of its response), exactly once
-//@   ensures nTaskDone == old(nTaskDone) + 1
-//@   callsite TaskQueue.TaskDone: assert $p == p && $task == task
-//@   -- C23: ... and its response, if still tracked, is left neither Running nor Queued (it is in neither list of the queue now)
-//@   ensures task.Topic in rm.inProgressResponses ==>
-//@           (rm.inProgressResponses[task.Topic].state == graphsync.Paused || rm.inProgressResponses[task.Topic].state == graphsync.CompletingSend)
 
 //@ -- C05: outcome notifications come from message notifications: completed listeners exactly when a TERMINAL status was
 //@ -- sent, after the request has been retired; a failed send closes the request with a network error
